@@ -284,7 +284,8 @@ def main():
             else:
                 run.add(ob, r['verdict'], r['solver_s'], r['detail'])
     run_probes(run, [(Ob('table_files', 'C20_tables.py', 'table_files', env={}), 'table_files()'),
-                     (Ob('results_json', 'C20_tables.py', 'results_json', env={}), 'results_json()')])
+                     (Ob('results_json', 'C20_tables.py', 'results_json', env={}), 'results_json()'),
+                     (Ob('parse_results', 'C20_tables.py', 'parse_results', env={}), 'parse_results()')])
     run.functions = ['tools.external.nonmem.results.calculate_cov_cor_coi_ses', 'modeling.calculate_cov_from_corrse',
                      'calculate_cov_from_prec', 'calculate_corr_from_cov', 'calculate_corr_from_prec',
                      'calculate_prec_from_cov', 'calculate_prec_from_corrse', 'calculate_se_from_cov',
